@@ -21,6 +21,35 @@ int main(int argc, char** argv) {
     std::string path = dir + "/c12_native_" + std::to_string((long)getpid());
     return hv::run([&](std::string const& line) -> std::string {
         auto w = hv::words(line);
+        //   reuse <fmt> <pix> <api> <dev> <pw> <ph> <k> (<w> <h> <hex>){k}: k round trips through one destination image (c12.hpp)
+        if (!w.empty() && w[0] == "reuse") {
+            std::string api, dev; int pw = 0, ph = 0; std::vector<step_t> steps;
+            if (!parse_reuse(w, api, dev, pw, ph, steps)) return "bad-op";
+            std::string const &fmt = w[1], &pix = w[2];
+#define RU(F, P, TAG, IMG) if (fmt == F && pix == P) return reuse_seq<gil::TAG, gil::IMG, 1>(api, dev, pw, ph, steps, path);
+#if C12_SEL == 0 || C12_SEL == 1
+            RU("bmp", "rgb8", bmp_tag, rgb8_image_t)
+#endif
+#if C12_SEL == 0 || C12_SEL == 2
+            RU("bmp", "rgba8", bmp_tag, rgba8_image_t)
+#endif
+#if C12_SEL == 0 || C12_SEL == 3
+            RU("pnm", "gray8", pnm_tag, gray8_image_t)
+#endif
+#if C12_SEL == 0 || C12_SEL == 4
+            RU("pnm", "rgb8", pnm_tag, rgb8_image_t)
+#endif
+#if C12_SEL == 0 || C12_SEL == 5
+            if (fmt == "pnm" && pix.compare(0, 5, "gray1") == 0) return reuse_seq_mut<gil::pnm_tag, gil::gray1_image_t, 1>(api, dev, pw, ph, steps, path);
+#endif
+#if C12_SEL == 0 || C12_SEL == 6
+            RU("targa", "rgb8", targa_tag, rgb8_image_t)
+#endif
+#if C12_SEL == 0 || C12_SEL == 7
+            RU("targa", "rgba8", targa_tag, rgba8_image_t)
+#endif
+            return "unsupported";
+        }
         //   dsts <fmt> <pix> <w> <h> <hex>   ->  <bytes via file name> | fp same|differs:<offset> | ss … | of …
         bool dsts = w.size() == 6 && w[0] == "dsts";
         if (!dsts && (w.size() != 8 || w[0] != "rt")) return "bad-op";
